@@ -6,7 +6,9 @@
    into the REAL IoUring methods over harness memory (hook H5) whose counters start at 2^32-H+m, in
    a debug (overflow checks) and a release build; every step is compared with the model.
    Larger configurations: `tlc -simulate` behaviours (RingGen.tla), visited model edges counted.
-3. B2: every run - toured, simulated, seeded random - is judged by TLC against the property-level
+3. Bounded exhaustive exploration of the real code itself (every feasible operation sequence up to a depth,
+   kernel side acting on the real shared words) and seeded random long runs.
+4. B2: every run - toured, simulated, explored, random - is judged by TLC against the property-level
    trace specification RingTrace.tla.  Only this produces verdicts.
 """
 import concurrent.futures as cf
@@ -181,12 +183,12 @@ def run(tier):
         replay_paths(chk, bindirs, stream, plans, exps, "tour_" + name, "tour " + name, st)
         tour_stats[name] = st
         total_edges += g.nedges
-        del plans, exps, paths
         conformance = conformance and not st["divergent_runs"]
         chk.evaluations += st["steps_compared"]
         if len(chk.samples) < 3 and plans:
             p = plans[len(plans) // 3]
             chk.sample({"config": name, "start": [p["sq0"], p["cq0"]], "steps": p["steps"][:14]})
+        del plans, exps, paths, g
     for (name, ns, nc, h, atomic, num, depth) in sims:
         generated, plans, exps, nedges = r_sims[name]
         chk.transitions += generated
@@ -206,6 +208,16 @@ def run(tier):
             stream.add(reset, evs, group="random_" + build, source="random/%s seed %d" % (build, chk.seed), random_ref={"args": args, "run": i})
         wrapped = sum(1 for (reset, evs) in runs if evs and max(evs[-1]["st"]) >= reset["h"] > min(reset["sq0"], reset["cq0"]))
         rnd_stats["random_" + build] = {"runs": len(runs), "events": sum(len(evs) for _, evs in runs), "runs_crossing_u32_wrap": wrapped}
+    # bounded exhaustive exploration of the real code itself (no model in the loop): every feasible sequence
+    for (ns, nc, depth) in ([(1, 1, 6), (2, 2, 5)] if quick else [(1, 1, 8), (2, 2, 7), (2, 4, 6), (4, 4, 6)]):
+        for build, bindir in bindirs.items():
+            cmd = ["explore", ns, nc, depth]
+            runs = R.run_harness(bindir, cmd)
+            for i, (reset, evs) in enumerate(runs):
+                stream.add(reset, evs, group="explore_%dx%d_%s" % (ns, nc, build), source="explore %dx%d depth %d/%s" % (ns, nc, depth, build),
+                           random_ref={"cmd": cmd, "run": i})
+            rnd_stats["explore_%dx%d_%s" % (ns, nc, build)] = {"depth": depth, "runs": len(runs), "events": sum(len(evs) for _, evs in runs)}
+            del runs
     args = [2, 20000 if quick else 300000, chk.seed + 7, 0, 3]
     runs = R.run_harness(bindirs["debug"], ["random"] + args)
     for i, (reset, evs) in enumerate(runs):
@@ -273,7 +285,7 @@ def replay(path):
         runs = R.run_harness(bindir, ["plan", ppath])
     else:
         r = rp["random"]
-        runs = R.run_harness(bindir, ["random"] + r["args"])
+        runs = R.run_harness(bindir, r.get("cmd") or (["random"] + r["args"]))
         runs = [runs[r["run"]]]
     bad = R.judge(chk, runs, "replay")
     for (reset, evs) in runs:
